@@ -54,7 +54,7 @@ func init() {
 
 	addProp(&PropSpec{
 		ID:    "C19",
-		Rules: []string{"R-IMMUT-AST", "R-GLOBALS", "R-EXECFRESH", "R-AMBIENT", "R-INPUT-RO", "R-COLLGUARD", "R-VARSIDENT", "R-STATE", "R-VALUETYPES"},
+		Rules: []string{"R-IMMUT-AST", "R-GLOBALS", "R-EXECFRESH", "R-AMBIENT", "R-INPUT-RO", "R-COLLGUARD", "R-VARSIDENT", "R-STATE", "R-VALUETYPES", "R-PATHRO"},
 		Explanation: "Static form of data-race freedom and history independence: absence of shared writable state. " +
 			"Decided over every function reachable (VTA call graph, through dependencies) from every read operation of a Path and from Parse: " +
 			"no write to memory owned by a parsed AST, no write to package-level state, a fresh Executor per call that never escapes, no ambient input. " +
